@@ -28,6 +28,11 @@ func (s *Server) VerifSetBlobTime(ctx context.Context, repoStr string, d digest.
 	return store.VerifSetBlobTime(ctx, s.store, repoStr, d, t)
 }
 
+// VerifSetAllBlobTimes changes the modification time of every blob currently stored in a repository.
+func (s *Server) VerifSetAllBlobTimes(ctx context.Context, repoStr string, t time.Time) ([]digest.Digest, error) {
+	return store.VerifSetAllBlobTimes(ctx, s.store, repoStr, t)
+}
+
 // VerifUploads lists the open upload sessions of a repository.
 func (s *Server) VerifUploads(ctx context.Context, repoStr string) ([]string, error) {
 	return store.VerifUploads(ctx, s.store, repoStr)
